@@ -4,7 +4,7 @@
 # usage: redetect.sh [ID ...]   (default: all)
 cd "$(dirname "$0")/.."
 . ./env.sh
-SCR=$(mktemp -d /tmp/scriggosa-redetect.XXXXXX)
+SCR=$(mktemp -d "${TMPDIR:-/tmp}/scriggosa-redetect.XXXXXX")
 trap 'rm -rf "$SCR"' EXIT
 mkdir -p "$SCR/repo" "$SCR/verif"
 rsync -a --exclude .git --exclude 'test/compare/cmd/cmd' /repo/ "$SCR/repo/"
